@@ -17,9 +17,11 @@ ASSUMPTIONS = ['a driver never returns more than it was asked for and never a po
                'auxiliary buffers are passed empty (used = offset = 0)']
 EXHAUSTIVE = {'quick': False, 'thorough': False}
 TECHNIQUE = 'Coq proof (exact-transfer theorems for scripted drivers by induction over scripts with fuel adequacy) + correspondence over exhaustive short scripts and random long ones'
-LEVEL_TEXT = ('Properties_C17.v: for octet and chunk drivers and every finite behaviour script, source_get_chunk delivers exactly the next n octets in order or the first '
-              'hard error unchanged, never running out of fuel; n = 0 or n > SSIZE_MAX is EINVAL with no driver call; dual statements for sinks (what reached the sink is a '
-              'prefix); at-most variants never exceed the request; per-octet/counted plumbing moves a prefix of the stream.  Model tied to core.c by correspondence.')
+LEVEL_TEXT = ('Theorems in Properties_C17.v about Model/Endpoints.v for EVERY driver script (Give k / 0 / EINTR / EAGAIN / hard error), octet- and chunk-style drivers: get/put of N octets deliver exactly the next N octets in order '
+              '(delivered ++ remaining = stream; what reached the sink is a prefix), EINTR/EAGAIN never surface, hard errors are returned, invalid counts are refused without a driver call, the at-most variants never exceed the request; '
+              'all retry loops terminate (the fuel of the model is proved adequate); the per-octet, counted and draining source-to-sink plumbing without auxiliary buffer moves exactly n / everything in order or returns an error with a '
+              'prefix in the sink (at most the octet in flight lost), and terminates, for every source script and every sink that accepts or fails hard.  Correspondence only (partial): plumbing with an auxiliary buffer; sinks that '
+              'return 0/EINTR/EAGAIN on a single octet inside the plumbing (outside the stated domain).')
 LEVEL_NOTE = 'Trusted: Coq kernel; hand model of endpoints/core.c (correspondence-tested); harness with scripted drivers. Partial: getbuffer-extension paths not modelled. No axioms.'
 
 EV = [1, 2, 3, 99, 0, -4, -11, -5, -12]
